@@ -29,7 +29,7 @@ Al-Cu : as.lj 0.1 2.0
     2: dict(targets=["LAMMPS", "GULP", "DL_POLY"], text="""[Potential-Form]
 g(r, a) = a * exp(-r) + 1/(r+1)
 f(r, a, b) = g(r, a) - g(r, b) + a*b
-h(r, n) = if(n < 1, 1, h2(r, n-1) + n)
+h(r, n) = if(n < 1, 1 + (sqrt(400 - r) - sqrt(400 - r)), h2(r, n-1) + n)
 h2(r, n) = h(r, n) * 1
 series(r, A, n) = var s := 0; while (n > 0) { s += A/r^n; n -= 1; }; s
 [Table-Form:tf]
@@ -331,6 +331,14 @@ def _history_chunk(rng):
                     same_cells = excel and cells(data) == ref["cells"]
                     bad.append(("output-differs", excel, same_cells, "history %s: output of model %d for %s differs from the fresh-process reference%s" % (
                         [(o["op"], o["id"]) for o in hist], mid, target, " (cells are equal: only the container differs)" if same_cells else ""), hist))
+            elif op["op"] == "fail":
+                # a potential of the model is evaluated where its formula is not defined: the call fails, the model is what it was
+                pots = {"%s-%s" % (p.speciesA, p.speciesB): p for p in tab.potentials}
+                try:
+                    v = pots["U-Zr"].energy(500.0)        # the innermost of the mutually recursive calls leaves its domain (sqrt(400 - r))
+                    bad.append(("failure-swallowed", False, False, "history %s: product(h 3, ...) at r=500, where h needs sqrt(400 - r), returned %r" % ([(o["op"], o["id"]) for o in hist], v), hist))
+                except Exception:
+                    pass
             elif op["op"] == "eval":
                 pots = {"%s-%s" % (p.speciesA, p.speciesB): p for p in tab.potentials}
                 todo = list(ref["energies"])
@@ -361,7 +369,8 @@ def main(prop, tier, seed):
                 _HIST = tlc.read_ndjson(os.path.join(res.outdir, "histories.ndjson"))
         finally:
             tlc.cleanup(res)
-        for c2, inv in (("Session_seeds", "OutputIsFunctionOfModel"), ("Session_stamps", "OutputIsFunctionOfModel"), ("Session_memo", "ContentIsFunctionOfModel")):
+        for c2, inv in (("Session_seeds", "OutputIsFunctionOfModel"), ("Session_stamps", "OutputIsFunctionOfModel"), ("Session_memo", "ContentIsFunctionOfModel"),
+                        ("Session_fail", "ContentIsFunctionOfModel")):
             # stamps = the current tree checked against the byte-level property (known finding F03)
             r2 = tlc.run("Session", c2 + ".cfg", timeout=600)
             run.notes[c2 + "_violates"] = r2.violated
